@@ -143,6 +143,42 @@ class FnView:
                     st.append(tb)
         return seen
 
+    def live_blocks(self):
+        """blocks reachable from entry when switches on a compile-time constant (e.g. `cfg!(debug_assertions)`
+        lowered to `_n = const false; switchInt(_n)`) follow only the matching edge"""
+        if hasattr(self, "_live"):
+            return self._live
+        seen = {0}
+        st = [0]
+        while st:
+            b = st.pop()
+            t = self.blocks[b].get("t")
+            nxt = [tb for tb, _ in self.succ(b)]
+            if t and t["k"] == "switch":
+                v = self._const_of(t["discr"])
+                if v is not None:
+                    tg = [tb for val, tb in t["targets"] if val == v]
+                    nxt = tg if tg else [t["otherwise"]]
+            for tb in nxt:
+                if tb not in seen:
+                    seen.add(tb)
+                    st.append(tb)
+        self._live = seen
+        return seen
+
+    def _const_of(self, o):
+        if o[0] == "k":
+            v = o[1].get("v")
+            return v if isinstance(v, int) else None
+        pl = o[1]
+        if pl[1]:
+            return None
+        ds = self.defs.get(pl[0], [])
+        if len(ds) == 1 and ds[0].kind == "assign" and not ds[0].proj and ds[0].rv[0] == "use" and ds[0].rv[1][0] == "k":
+            v = ds[0].rv[1][1].get("v")
+            return v if isinstance(v, int) else None
+        return None
+
     def return_blocks(self):
         return [i for i, b in enumerate(self.blocks) if b.get("t", {}).get("k") == "return"]
 
